@@ -22,7 +22,7 @@ fn line(parts: Vec<Part>) -> Stmt {
 
 /// names of the slot items (index = alphabet position); `i` = slot index for unique labels
 pub const ITEM_NAMES: &[&str] = &[
-    "text", "asg", "print", "glue-end", "glue-start", "tag", "cond-inline", "seq", "cycle", "once", "if-block", "fcall-value", "fcall-text", "fstmt-text", "tunnel", "temp", "string", "choice-basic", "choice-bracket", "choice-label", "choice-cond", "choice-fallback", "choice-nested", "thread", "count-knot", "turns-since", "choice-count", "divert-k2-back", "fcall-nested", "tag-alone", "line-divert", "choice-inline-divert", "seq-block", "tunnel-onwards", "divert-args",
+    "text", "asg", "print", "glue-end", "glue-start", "tag", "cond-inline", "seq", "cycle", "once", "if-block", "fcall-value", "fcall-text", "fstmt-text", "tunnel", "temp", "string", "choice-basic", "choice-bracket", "choice-label", "choice-cond", "choice-fallback", "choice-nested", "thread", "count-knot", "turns-since", "choice-count", "divert-k2-back", "fcall-nested", "tag-alone", "line-divert", "choice-inline-divert", "seq-block", "tunnel-onwards", "divert-args", "silent-pingpong",
 ];
 
 pub fn item(a: usize, i: usize) -> Vec<Stmt> {
@@ -78,6 +78,28 @@ pub fn item(a: usize, i: usize) -> Vec<Stmt> {
             Stmt::Tunnel(lab("tunto")),
             Stmt::line("Skipped by the override."),
             Stmt::Weave(Weave { choices: vec![], gather: Some(Gather { label: Some(lab("tb")), parts: vec![t("Back via override "), p(x()), t(".")] }) }),
+        ],
+        // after a line end, two knots are entered three times each without printing anything, and
+        // the silent stretch ends at a choice point: every entry counts (K1), whatever the engine
+        // did while it looked ahead; knots in extra_knots
+        "silent-pingpong" => vec![
+            Stmt::line(&format!("Before ping {i}.")),
+            Stmt::set("y", Expr::Int(0)),
+            Stmt::Divert(Target::Knot(lab("ping"))),
+            Stmt::Weave(Weave { choices: vec![], gather: Some(Gather { label: Some(lab("pp")), parts: vec![] }) }),
+            Stmt::Weave(Weave {
+                choices: vec![Choice {
+                    sticky: true,
+                    label: None,
+                    conds: vec![],
+                    start: vec![],
+                    only: vec![t("see counts")],
+                    end: vec![],
+                    fallback: false,
+                    body: vec![line(vec![t("Counts "), p(Expr::Count(lab("ping"))), t(" "), p(Expr::Count(lab("pong"))), t(" "), p(Expr::var("y")), t(".")])],
+                }],
+                gather: Some(Gather { label: None, parts: vec![t("After counts.")] }),
+            }),
         ],
         // divert with arguments (K1b); knot in extra_knots
         "divert-args" => vec![
@@ -179,6 +201,19 @@ pub fn extra_knots(a: usize, i: usize) -> Vec<Knot> {
     let lab = |s: &str| format!("{s}{i}");
     match ITEM_NAMES[a] {
         "tunnel-onwards" => vec![Knot { name: lab("tunto"), params: vec![], is_function: false, body: vec![line(vec![t("In tunto "), p(x()), t(".")]), xplus(1), Stmt::TunnelReturnTo(Target::LabelIn("main".into(), lab("tb")))], stitches: vec![] }],
+        "silent-pingpong" => vec![
+            Knot { name: lab("ping"), params: vec![], is_function: false, body: vec![Stmt::set("y", Expr::bin(Expr::var("y"), BinOp::Add, Expr::Int(1))), Stmt::Divert(Target::Knot(lab("pong")))], stitches: vec![] },
+            Knot {
+                name: lab("pong"),
+                params: vec![],
+                is_function: false,
+                body: vec![
+                    Stmt::If { branches: vec![(Expr::bin(Expr::var("y"), BinOp::Lt, Expr::Int(3)), vec![Stmt::Divert(Target::Knot(lab("ping")))])], else_: None },
+                    Stmt::Divert(Target::LabelIn("main".into(), lab("pp"))),
+                ],
+                stitches: vec![],
+            },
+        ],
         "divert-args" => vec![Knot {
             name: lab("kargs"),
             params: vec!["pa".into(), "pb".into()],
@@ -343,7 +378,7 @@ pub fn stitch_nth(k: usize, a: usize, idx: usize) -> (String, Program) {
 /// slot alphabet of the external-call family (C12): one item per syntactic position of a call,
 /// plus context items that put line ends, glue, choices and Ink functions around it
 pub const EXT_ITEMS: &[&str] = &[
-    "text", "ext-print", "ext-stmt", "ext-assign", "ext-after-line", "ext-cond", "ext-string", "ext-choice-text", "ext-choice-cond", "ext-choice-body", "ext-in-func", "ext-nested", "ext-twice", "ext-str-ret", "ext-tunnel", "ext-thread", "ext-glue-before", "ext-glue-after", "asg", "choice-basic", "tag", "fstmt-text", "ext-block-cond",
+    "text", "ext-print", "ext-stmt", "ext-assign", "ext-after-line", "ext-cond", "ext-string", "ext-choice-text", "ext-choice-cond", "ext-choice-body", "ext-in-func", "ext-nested", "ext-twice", "ext-str-ret", "ext-tunnel", "ext-thread", "ext-glue-before", "ext-glue-after", "asg", "choice-basic", "tag", "fstmt-text", "ext-block-cond", "ext-cond-bare",
 ];
 
 fn e1(a: Expr) -> Expr {
@@ -359,6 +394,8 @@ pub fn ext_item(a: usize, i: usize) -> Vec<Stmt> {
         "ext-assign" => vec![Stmt::set("y", Expr::Ext("e2".into(), vec![x(), Expr::Int(3)])), line(vec![t("Y "), p(Expr::var("y")), t(".")])],
         "ext-after-line" => vec![Stmt::line(&format!("Before {i}.")), Stmt::set("x", e1(x())), line(vec![t("After "), p(x()), t(".")])],
         "ext-cond" => vec![line(vec![Part::Cond(Expr::bin(e1(x()), BinOp::Gt, Expr::Int(105)), vec![t("high")], vec![t("low")]), t(" cond.")])],
+        // a call without arguments that IS the whole condition
+        "ext-cond-bare" => vec![line(vec![Part::Cond(Expr::Ext("e0".into(), vec![]), vec![t("bare yes")], vec![t("bare no")]), t(" bare.")])],
         "ext-string" => vec![Stmt::set("s", Expr::Interp(vec![t("v"), p(e1(x()))])), line(vec![t("S "), p(Expr::var("s")), t(".")])],
         "ext-choice-text" => vec![Stmt::Weave(Weave {
             choices: vec![ch(true, vec![], vec![t("pick "), p(e1(x()))], vec![Stmt::line("Picked.")]), ch(true, vec![], vec![t("other")], vec![xplus(1)])],
@@ -441,9 +478,10 @@ pub fn ext_nth(k: usize, mut idx: usize, fallback_fns: bool) -> (String, Program
         knots.push(f("e2", &["a", "b"], vec![Stmt::Return(Some(Expr::bin(Expr::bin(Expr::Int(2000), BinOp::Add, v("a")), BinOp::Add, v("b"))))]));
         knots.push(f("ev_void", &["a"], vec![Stmt::set("y", Expr::bin(v("y"), BinOp::Add, v("a")))]));
         knots.push(f("es_str", &["a"], vec![Stmt::Return(Some(Expr::bin(Expr::Str("fb".into()), BinOp::Add, v("a"))))]));
+        knots.push(f("e0", &[], vec![Stmt::Return(Some(Expr::Int(0)))]));
     }
     let prog = Program {
-        externals: vec![("e1".into(), vec!["a".into()]), ("e2".into(), vec!["a".into(), "b".into()]), ("ev_void".into(), vec!["a".into()]), ("es_str".into(), vec!["a".into()])],
+        externals: vec![("e1".into(), vec!["a".into()]), ("e2".into(), vec!["a".into(), "b".into()]), ("ev_void".into(), vec!["a".into()]), ("es_str".into(), vec!["a".into()]), ("e0".into(), vec![])],
         globals: vec![("x".into(), Expr::Int(0)), ("y".into(), Expr::Int(0)), ("s".into(), Expr::Str("".into()))],
         root: vec![Stmt::Divert(Target::Knot("main".into()))],
         knots,
